@@ -390,6 +390,34 @@ def _():
     return G.emit_strings('p_select', rows, 'selection dataflow (pinned shape)')
 
 
+@item('p_expire')
+def _():
+    """expiry dataflow (pinned shape): the three writes of replace() in both classes, pool construction, sampling branch, reset default"""
+    rows = []
+    for cls in ('EuclideanCodebook', 'CosineSimCodebook'):
+        f = find_func(VQ, f'{cls}.replace')
+        for s in ast.walk(f):
+            if isinstance(s, ast.Assign):
+                rows.append(f'{cls}.replace:' + ast.unparse(s))
+        rows.append(f'{cls}.replace.loop:' + ast.unparse([n for n in f.body if isinstance(n, ast.For)][0].iter))
+        rows.append(f'{cls}.pool:' + ast.unparse(assigned_expr(VQ, f'{cls}.expire_codes_', 'batch_samples')))
+        rows.append(f'{cls}.reset:' + ast.unparse(assigned_expr(VQ, f'{cls}.__init__', 'self.reset_cluster_size')))
+        rows.append(f'{cls}.call:' + ast.unparse([n for n in ast.walk(find_func(VQ, f'{cls}.expire_codes_')) if isinstance(n, ast.Call) and G.call_name(n) == 'self.replace'][0]))
+    sv = find_func(VQ, 'sample_vectors')
+    for s in ast.walk(sv):
+        if isinstance(s, ast.If):
+            rows.append('sample_vectors.if:' + ast.unparse(s.test))
+        if isinstance(s, ast.Assign) and ast.unparse(s.targets[0]) == 'indices':
+            rows.append('sample_vectors.indices:' + ast.unparse(s.value))
+    rows.append('sample_vectors.return:' + ast.unparse(return_expr(VQ, 'sample_vectors')))
+    vqe = find_func(VQ, 'VectorQuantize.expire_codes_')
+    rows += ['vq.expire:' + ast.unparse(s) for s in vqe.body]
+    f = find_func(RVQ, 'ResidualVQ.forward')
+    rows += ['rvq.shared_expire:' + ast.unparse(n) for n in ast.walk(f) if isinstance(n, ast.Call) and G.call_name(n) == 'shared_layer.expire_codes_']
+    rows += ['rvq.all_residuals:' + ast.unparse(n) for n in ast.walk(f) if isinstance(n, ast.Call) and G.call_name(n) == 'all_residuals.append']
+    return G.emit_strings('p_expire', rows, 'expiry dataflow (pinned shape)')
+
+
 # =============================================================================== inventories (G4)
 for fname, cls, tag in ((VQ, 'EuclideanCodebook', 'euclid'), (VQ, 'CosineSimCodebook', 'cosine'), (VQ, 'VectorQuantize', 'vq'),
                         (FSQF, 'FSQ', 'fsq'), (LFQF, 'LFQ', 'lfq'), (SIMVQ, 'SimVQ', 'simvq'), (RPQ, 'RandomProjectionQuantizer', 'rpq'),
@@ -412,12 +440,23 @@ writes_item('w_euclid', VQ, ['EuclideanCodebook.forward', 'EuclideanCodebook.ini
 writes_item('w_cosine', VQ, ['CosineSimCodebook.forward', 'CosineSimCodebook.init_embed_', 'CosineSimCodebook.replace',
                              'CosineSimCodebook.expire_codes_', 'CosineSimCodebook.update_ema'])
 writes_item('w_vq', VQ, ['VectorQuantize.forward', 'VectorQuantize.get_codes_from_indices', 'VectorQuantize.get_output_from_indices',
-                         'VectorQuantize.expire_codes_', 'VectorQuantize.update_in_place_optimizer'])
-writes_item('w_fsq', FSQF, ['FSQ.forward', 'FSQ.quantize', 'FSQ.bound', 'FSQ.codes_to_indices', 'FSQ.indices_to_codes', 'FSQ._indices_to_codes'])
+                         'VectorQuantize.expire_codes_', 'VectorQuantize.update_in_place_optimizer', 'VectorQuantize.maybe_split_heads_from_input',
+                         'gumbel_sample', 'gumbel_noise', 'cdist', 'rotate_to', 'efficient_rotation_trick_transform', 'kmeans', 'ema_inplace',
+                         'sample_vectors', 'batched_bincount', 'orthogonal_loss_fn'])
+writes_item('w_fsq', FSQF, ['FSQ.forward', 'FSQ.quantize', 'FSQ.bound', 'FSQ.symmetry_preserving_bound', 'FSQ.codes_to_indices', 'FSQ.indices_to_codes',
+                            'FSQ._indices_to_codes', 'FSQ.indices_to_level_indices', 'FSQ._scale_and_shift', 'FSQ._scale_and_shift_inverse'])
 writes_item('w_lfq', LFQF, ['LFQ.forward', 'LFQ.indices_to_codes', 'LFQ.bits_to_codes'])
 writes_item('w_simvq', SIMVQ, ['SimVQ.forward', 'SimVQ.indices_to_codes'])
 writes_item('w_rpq', RPQ, ['RandomProjectionQuantizer.forward'])
-writes_item('w_rvq', RVQ, ['ResidualVQ.forward', 'ResidualVQ.get_codes_from_indices', 'ResidualVQ.get_output_from_indices'])
+writes_item('w_rvq', RVQ, ['ResidualVQ.forward', 'ResidualVQ.get_codes_from_indices', 'ResidualVQ.get_output_from_indices',
+                           'GroupedResidualVQ.forward', 'GroupedResidualVQ.get_codes_from_indices', 'GroupedResidualVQ.get_output_from_indices', 'MLP.forward'])
+writes_item('w_rfsq', RFSQ, ['ResidualFSQ.forward', 'ResidualFSQ.get_codes_from_indices', 'ResidualFSQ.get_output_from_indices',
+                             'GroupedResidualFSQ.forward', 'GroupedResidualFSQ.get_codes_from_indices', 'GroupedResidualFSQ.get_output_from_indices'])
+writes_item('w_rlfq', RLFQ, ['ResidualLFQ.forward', 'ResidualLFQ.get_codes_from_indices', 'ResidualLFQ.get_output_from_indices',
+                             'GroupedResidualLFQ.forward', 'GroupedResidualLFQ.get_codes_from_indices', 'GroupedResidualLFQ.get_output_from_indices'])
+writes_item('w_rsvq', RSVQ, ['ResidualSimVQ.forward', 'ResidualSimVQ.get_codes_from_indices', 'ResidualSimVQ.get_output_from_indices'])
+writes_item('w_lq', LQ, ['LatentQuantize.forward', 'LatentQuantize.quantize', 'LatentQuantize.codes_to_indices', 'LatentQuantize.indices_to_codes',
+                         'LatentQuantize._scale_and_shift', 'LatentQuantize._scale_and_shift_inverse', 'LatentQuantize.quantization_loss', 'LatentQuantize.commitment_loss'])
 
 
 @item('o_rpq_eval')
